@@ -1,6 +1,6 @@
 (* C02 - binary encoding follows the Avro specification (cross-implementation interop). *)
 From AvroV Require Import Base Varint Schema Bytes Names Codec Conforms Layout BinEnc BlockAudit.
-From AvroV Require Import VarintP CodecP SpecP AuditP PaddedP PaddedSpecP.
+From AvroV Require Import VarintP CodecP SpecP AuditP PaddedP PaddedSpecP PaddedHeadP.
 Open Scope N_scope.
 
 (* Forward: the bytes written for a conforming value are a specification-legal encoding of it
@@ -144,3 +144,19 @@ Proof.
   - intros rest. exact (padded_long_datum c nmz ens z p b k rest fuel Hz E Hl).
   - intros v. exact (padded_outside_spec nmz ens z p b k v Hz E Hl).
 Qed.
+
+(* The same invariance for the datum decoder at the head position of EVERY schema whose encoding starts
+   with a variable-length integer - the number itself, a byte / string length, an enum symbol index,
+   a union branch index: padded and minimal input are read alike, whatever follows. *)
+Theorem C02_decode_head_padding_invariant :
+  forall (c : cfg) (nmz : names) (ens : option str) (s : schema) (fuel : nat) (p : bytes) (b : N) (k : nat) (rest : bytes),
+    varint_headed s = true -> Forall cont p -> b < 128 -> (length p + k + 2 <= 10)%nat ->
+    decode (S fuel) c nmz ens s (p ++ padding b k ++ rest) = decode (S fuel) c nmz ens s (p ++ b :: rest).
+Proof. intros c nmz ens s fuel p b k rest. exact (decode_head_padding_invariant c nmz ens s fuel p b k rest). Qed.
+
+Example C02_head_padding_example :
+  let c := mkCfg 4096 56 80 in
+  varint_headed (SUnion [SNull; SString]) = true /\
+  decode 3 c [] None (SUnion [SNull; SString]) ([] ++ padding 2 1 ++ [0x02; 0x61]) = Ok (VUnion 1 (VString [0x61]), []) /\
+  decode 3 c [] None SString ([] ++ padding 2 0 ++ [0x61]) = Ok (VString [0x61], []).
+Proof. repeat split; vm_compute; reflexivity. Qed.
